@@ -42,7 +42,7 @@ RULE = ('a case = (alphabet, list of row texts, window w, input representation);
 ASSUMPTIONS = [
     'generic-path k-mer codes are only demanded while |A|**k < 2**63 (ACGTN: k <= 27, amino acids: k <= 14); the '
     '4-letter bit-packed path is explored to k = 31',
-    'count_kmers is only judged while |A|**k <= 300 and k <= 8 (its result is a dense vector of |A|**k counts and the '
+    'count_kmers is only judged while |A|**k <= 300 (part A: 64; per-row counts 16) and k <= 8 (its result is a dense vector of |A|**k counts and the '
     'library refuses k > 8 with an assertion: counted as refused, not judged)',
     'precondition of the statement: total number of letters >= window (generator constraint)',
     'get_minimizers is not called on un-encoded ASCII text (its documented precondition is an AlphabetEncoding)',
@@ -68,7 +68,8 @@ MANIFEST_NOTE = ('Trusted: NumPy, npstructures, CPython, as_encoded_array and ra
                  'examples and hand-computed codes). Rows longer than 2w, more than 4 rows, |A|**k >= 2**63 are not explored.')
 
 INT63 = 2 ** 63
-COUNT_LIMIT = 300
+COUNT_LIMIT = 300          # part B
+COUNT_LIMIT_A = 64         # part A (per-row counts: 16)
 
 ALPHABETS = {
     'ACGT': 'ACGT',
@@ -94,30 +95,44 @@ def encoding(name):
 # --------------------------------------------------------------------------- bounds / shards
 QUICK_W = [1, 2, 3, 4, 5, 8, 16, 31]
 B_ALPHABETS = ['ACGT', 'ACGTN', 'amino']
-B_VARIANTS = [('fresh', 'cyclic'), ('fresh', 'first'), ('fresh', 'last'), ('fresh', 'quad'),
-              ('view', 'cyclic'), ('view', 'quad'), ('ascii', 'cyclic'), ('ascii', 'quad')]
+B_VARIANTS_T = [('fresh', 'cyclic'), ('fresh', 'first'), ('fresh', 'last'), ('fresh', 'quad'),
+                ('view', 'cyclic'), ('view', 'quad'), ('ascii', 'cyclic'), ('ascii', 'quad')]
+B_VARIANTS_Q = [('fresh', 'cyclic'), ('fresh', 'first'), ('fresh', 'last'), ('fresh', 'quad'),
+                ('view', 'cyclic'), ('ascii', 'cyclic')]
+FULL = '{0,1,w-1,w,w+1,2w}'
+NARROW = '{0,w-1,w,w+1}'
 
 
 def bounds(tier, seed):
+    """part A: blocks of (alphabet, rows exactly/at most, every string of length 0..max_len, windows);
+    part B: windows x row-count -> length set x alphabets x (representation, fill)"""
     if tier == 'quick':
         ext = [w for w in range(1, 32) if w not in QUICK_W and (w + seed) % 3 == 0]
         return {
-            'partA': {'ACGT': {'max_rows': 2, 'max_len': 3, 'windows': [1, 2, 3, 4]},
-                      'AC': {'max_rows': 3, 'max_len': 3, 'windows': [1, 2, 3, 4]},
-                      'ACG': {'max_rows': 2, 'max_len': 3, 'windows': [1, 2, 3, 4]}},
+            'partA': [{'alphabet': 'ACGT', 'rows': [1, 2], 'max_len': 3, 'windows': [1, 2, 3, 4]},
+                      {'alphabet': 'AC', 'rows': [1, 2], 'max_len': 3, 'windows': [1, 2, 3, 4]},
+                      {'alphabet': 'AC', 'rows': [3], 'max_len': 2, 'windows': [1, 2, 3]},
+                      {'alphabet': 'ACG', 'rows': [1, 2], 'max_len': 3, 'windows': [1, 2, 3, 4]}],
             'partB': {'windows_core': QUICK_W, 'windows_extension_slice(seed-rotated)': ext,
-                      'max_rows': 3, 'max_rows_extension': 2, 'lengths': '{0,1,w-1,w,w+1,2w}',
-                      'alphabets': B_ALPHABETS, 'variants(repr,fill)': [list(v) for v in B_VARIANTS],
+                      'lengths_by_rows': {'1': FULL, '2': FULL, '3': NARROW},
+                      'lengths_by_rows_extension': {'1': FULL, '2': FULL},
+                      'alphabets': B_ALPHABETS, 'variants(repr,fill)': [list(v) for v in B_VARIANTS_Q],
+                      'ascii_only_for': 'ACGT',
                       'minimizer_k': 'every k <= w (generic codes: |A|**k < 2**63)'},
         }
     return {
-        'partA': {'ACGT': {'max_rows': 2, 'max_len': 4, 'windows': [1, 2, 3, 4, 5]},
-                  'ACTG': {'max_rows': 2, 'max_len': 3, 'windows': [1, 2, 3, 4]},
-                  'AC': {'max_rows': 3, 'max_len': 4, 'windows': [1, 2, 3, 4, 5]},
-                  'ACG': {'max_rows': 3, 'max_len': 3, 'windows': [1, 2, 3, 4]}},
-        'partB': {'windows_core': list(range(1, 32)), 'max_rows': 3, 'lengths': '{0,1,w-1,w,w+1,2w}',
-                  'four_rows': 'lengths {0,w-1,w,w+1}, variants (fresh,cyclic) (fresh,quad) (view,cyclic)',
-                  'alphabets': B_ALPHABETS, 'variants(repr,fill)': [list(v) for v in B_VARIANTS],
+        'partA': [{'alphabet': 'ACGT', 'rows': [1, 2], 'max_len': 3, 'windows': [1, 2, 3, 4]},
+                  {'alphabet': 'ACGT', 'rows': [3], 'max_len': 2, 'windows': [1, 2, 3]},
+                  {'alphabet': 'ACTG', 'rows': [1, 2], 'max_len': 3, 'windows': [1, 2, 3, 4]},
+                  {'alphabet': 'AC', 'rows': [1, 2], 'max_len': 4, 'windows': [1, 2, 3, 4, 5]},
+                  {'alphabet': 'AC', 'rows': [3], 'max_len': 3, 'windows': [1, 2, 3, 4]},
+                  {'alphabet': 'ACG', 'rows': [1, 2], 'max_len': 4, 'windows': [1, 2, 3, 4, 5]},
+                  {'alphabet': 'ACG', 'rows': [3], 'max_len': 2, 'windows': [1, 2, 3]}],
+        'partB': {'windows_core': list(range(1, 32)),
+                  'lengths_by_rows': {'1': FULL, '2': FULL, '3': FULL, '4': NARROW},
+                  'four_rows_only_for_variants': [['fresh', 'cyclic'], ['fresh', 'quad'], ['view', 'cyclic']],
+                  'alphabets': B_ALPHABETS, 'variants(repr,fill)': [list(v) for v in B_VARIANTS_T],
+                  'ascii_only_for': 'ACGT',
                   'minimizer_k': 'every k <= w (generic codes: |A|**k < 2**63)'},
     }
 
@@ -130,13 +145,14 @@ N_BUNDLES = 32      # the pool recycles workers after 40 tasks; <= 40 shards kee
 
 
 def sub_shards(tier, seed):
-    """fine-grained slices of the space, simplest first (small windows, few rows)"""
+    """fine-grained slices of the space, simplest first (few rows, small windows)"""
     b = bounds(tier, seed)
     out = []
-    for name, spec in b['partA'].items():
+    for spec in b['partA']:
+        name = spec['alphabet']
         ns = _n_strings(len(ALPHABETS[name]), spec['max_len'])
         for w in spec['windows']:
-            for nrows in range(1, spec['max_rows'] + 1):
+            for nrows in spec['rows']:
                 ncases = ns ** nrows
                 nslices = max(1, ncases // 400)
                 for i in range(nslices):
@@ -144,18 +160,18 @@ def sub_shards(tier, seed):
                                 'slice': [i, nslices]})
     pb = b['partB']
     ext = pb.get('windows_extension_slice(seed-rotated)', [])
+    four = [tuple(v) for v in pb.get('four_rows_only_for_variants', [])]
     for w in sorted(set(pb['windows_core']) | set(ext)):
-        max_rows = pb['max_rows'] if w in pb['windows_core'] else pb['max_rows_extension']
+        by_rows = pb['lengths_by_rows'] if w in pb['windows_core'] else pb['lengths_by_rows_extension']
         for name in B_ALPHABETS:
-            for rep, fill in B_VARIANTS:
-                if rep == 'ascii' and name != 'ACGT':
+            for rep, fill in [tuple(v) for v in pb['variants(repr,fill)']]:
+                if rep == 'ascii' and name != pb['ascii_only_for']:
                     continue
-                for nrows in range(1, max_rows + 1):
-                    out.append({'part': 'B', 'alphabet': name, 'w': w, 'repr': rep, 'fill': fill, 'nrows': nrows,
-                                'lengths': 'full'})
-                if tier == 'thorough' and (rep, fill) in (('fresh', 'cyclic'), ('fresh', 'quad'), ('view', 'cyclic')):
-                    out.append({'part': 'B', 'alphabet': name, 'w': w, 'repr': rep, 'fill': fill, 'nrows': 4,
-                                'lengths': 'narrow'})
+                for nrows_s, lset in sorted(by_rows.items()):
+                    if int(nrows_s) == 4 and (rep, fill) not in four:
+                        continue
+                    out.append({'part': 'B', 'alphabet': name, 'w': w, 'repr': rep, 'fill': fill, 'nrows': int(nrows_s),
+                                'lengths': 'full' if lset == FULL else 'narrow'})
     out.sort(key=lambda d: (d['nrows'], d['w'], d['part'], d['alphabet'], d.get('repr', ''), d.get('fill', ''),
                             d.get('slice', [0])[0]))
     return out
@@ -298,7 +314,7 @@ def kmax(alphabet):
     return k
 
 
-def units_for(alpha_name, rows, w, rep):
+def units_for(alpha_name, rows, w, rep, part='B'):
     alphabet = ALPHABETS[alpha_name]
     n = len(alphabet)
     km = kmax(alphabet)
@@ -313,9 +329,10 @@ def units_for(alpha_name, rows, w, rep):
     for kind in ('finite', 'neginf'):
         us.append({'func': 'get_motif_scores', 'pwm': kind})
     if w <= km:
-        if n ** w <= COUNT_LIMIT and w <= 8:
+        if n ** w <= (COUNT_LIMIT if part == 'B' else COUNT_LIMIT_A) and w <= 8:
             us.append({'func': 'count_kmers', 'axis': 'none'})
-            us.append({'func': 'count_kmers', 'axis': 'rows'})
+            if part == 'B' or n ** w <= 16:
+                us.append({'func': 'count_kmers', 'axis': 'rows'})
         elif w == 9 and n == 4:
             us.append({'func': 'count_kmers', 'axis': 'none', 'refusal_probe': True})
     return us
@@ -564,7 +581,7 @@ def is_nontrivial(rows, w):
     return flat_windows != exp or any(len(r) < w for r in rows)
 
 
-def check_case(res, st, alpha_name, rows, w, rep, only_unit=None):
+def check_case(res, st, alpha_name, rows, w, rep, only_unit=None, part='B'):
     rows = tuple(rows)
     res.evaluations += 1
     res.states += 1
@@ -573,7 +590,7 @@ def check_case(res, st, alpha_name, rows, w, rep, only_unit=None):
     if text_rows(arr) != list(rows):
         res.extra['input construction gave other text (%s); case skipped' % rep] += 1
         return
-    units = units_for(alpha_name, rows, w, rep) if only_unit is None else [only_unit]
+    units = units_for(alpha_name, rows, w, rep, part) if only_unit is None else [only_unit]
     for unit in units:
         run_unit(res, st, alpha_name, rows, w, rep, arr, unit)
     res.traces += 1
@@ -594,7 +611,7 @@ def run_shard(desc, deadline):
             if n % 16 == 0 and deadline.expired():
                 res.capped = True
                 return res
-            check_case(res, st, sub['alphabet'], rows, sub['w'], rep)
+            check_case(res, st, sub['alphabet'], rows, sub['w'], rep, part=sub['part'])
     return res
 
 
